@@ -248,12 +248,24 @@ class MsgPlugin:
 
     # ---------------------------------------------------------------- spec-language names
     def spec_has(self, name):
-        return name in self.SPEC_NAMES
+        return name in self.SPEC_NAMES or (name.endswith("_OF") and name[:-3] in self.SPEC_NAMES)
 
     def spec_call(self, ex, name, pos, st):
         key = "self"
+        if name.endswith("_OF") and name[:-3] in self.SPEC_NAMES:
+            # X_OF(m, ...): the state function X of another message object m (a parameter of model type msg / rawmsg)
+            if not pos or pos[0].kind != "ref" or pos[0].extra not in ("msg", "rawmsg"):
+                raise Unsupported(f"{name}: first argument must be a message object")
+            key, name, pos = pos[0].t, name[:-3], pos[1:]
         if name == "NF":
             return sv_int(NF)
+        if name == "FNAME_IDX":
+            if pos[0].kind == "fname":
+                return sv_int(pos[0].t)
+            if pos[0].kind == "str":
+                # a plain string: its index in the field table, if any (uninterpreted; no field is named "")
+                return sv_int(z3.Function("NAME_IDX", StrS, IntS)(pos[0].t))
+            raise Unsupported(f"FNAME_IDX of {pos[0].kind}")
         simple = {"F_number": (F_number, sv_int), "F_ptype": (F_ptype, sv_str), "F_group": (F_group, sv_str),
                   "F_wraps": (F_wraps, sv_str), "F_optional": (F_optional, sv_bool), "F_dkind": (F_dkind, sv_str),
                   "F_mapk": (F_mapk, sv_str), "F_mapv": (F_mapv, sv_str)}
@@ -385,8 +397,6 @@ class MsgPlugin:
             return SV("objseq", hdv[PyObj.pdict(to_obj(pos[0]))])
         if name == "SOWV":
             return sv_bool(MSG_SOW(to_obj(pos[0])))
-        if name == "FNAME_IDX":
-            return sv_int(pos[0].t)
         raise Unsupported(f"spec name {name}")
 
     # ---------------------------------------------------------------- attribute protocol
@@ -430,6 +440,9 @@ class MsgPlugin:
         if v.kind == "objbp" and attr == "meta_by_field_name":
             return [(st, sv_bool(MSG_HASFIELDS(v.t)))]
         if v.kind in ("super", "selfdict", "gclocal"):
+            return [(st, SV("func", ("method", v, attr)))]
+        if v.kind == "msgcls" and attr in ("FromString",):
+            # a bound classmethod, only ever passed along (pickle's reconstructor); never called symbolically
             return [(st, SV("func", ("method", v, attr)))]
         if v.kind == "func" and v.t[0] == "fieldcls":
             return [(st, SV("func", ("method", v, attr)))]
@@ -569,7 +582,7 @@ class MsgPlugin:
 
     def truth_hook(self, ex, v):
         if v.kind == "fname":
-            return v.t != -1
+            return z3.And(v.t != -1, v.t != -2)     # -1: None entry / missing number; -2: key absent from the selection table
         if v.kind == "maptypes":
             return F_ptype(v.t) == z3.StringVal("map")
         if v.kind == "arr":
@@ -756,8 +769,23 @@ class MsgPlugin:
     def call_builtin(self, ex, name, pos, kw, st, node):
         if name == "getattr" and len(pos) == 2 and pos[0].kind == "ref" and pos[0].extra == "msg" and pos[1].kind == "fname":
             return self.model_getattr(ex, st, pos[0], pos[1].t)
+        if name == "getattr" and len(pos) == 3 and pos[0].kind == "ref" and pos[0].extra == "msg" and pos[1].kind == "fname":
+            # getattr(m, name, default): the default replaces an AttributeError
+            out = []
+            for st1, v in self.model_getattr(ex, st, pos[0], pos[1].t):
+                if isinstance(v, Raised) and v.exc.t == "AttributeError":
+                    out.append((st1, pos[2]))
+                else:
+                    out.append((st1, v))
+            return out
         if name == "super" and not pos and "self" in st.env:
             return [(st, SV("super", st.env["self"].t))]
+        if name == "dict" and len(pos) == 1 and not kw and pos[0].kind in ("gcdict", "gclocal"):
+            # dict(d): a new dictionary with the same entries (the selection table of a message)
+            if pos[0].kind == "gclocal":
+                return [(st, SV("gclocal", pos[0].t))]
+            raw, gc, hl, hdk, hdv = self.cells(st, pos[0].t)
+            return [(st, SV("gclocal", gc))]
         if name == "hasattr" and len(pos) == 2 and pos[0].kind == "ref" and pos[0].extra == "rawmsg":
             nm = pos[1]
             from .sym import concrete_str
